@@ -652,6 +652,24 @@ def worker(rec, shard, nshards, thorough, seed):
                 rec.outcome("delay-case:" + ("clean" if not answers[tag] else "errors"))
             if len({tuple(v) for v in answers.values()}) > 1:
                 rec.violation("C07:issues-depend-on-letter-case-of-Delay", first=first, second=second, answers=answers)
+            # the two rows (and a third, later one) written in every file order: the delayed group is shifted from its own row
+            rows3 = [("10", first.format("Delay")), ("20", second), ("30", "Red")]
+            base3 = None
+            for perm in itertools.permutations(range(3)):
+                tsv = "onset\tHED\n" + "".join(f"{rows3[i][0]}\t{rows3[i][1]}\n" for i in perm)
+                rec.n("evaluations")
+                rec.n("distinct_nontrivial")
+                try:
+                    issues = validate_file(env, tsv, "{}")
+                except Exception as e:
+                    rec.violation(f"C07:raises:{type(e).__name__}:delay-order", file=tsv, error=repr(e)[:300])
+                    continue
+                got = sorted((i["code"], perm[i["ec_row"] - 2]) for i in issues if i["severity"] == ERR and i.get("ec_row"))
+                if base3 is None:
+                    base3 = got
+                elif got != base3:
+                    rec.violation("C07:row-order-changes-the-issues:delayed-group", file=tsv, in_time_order=base3, this_order=got)
+                    break
 
 
 def file_sequence_check(ctx):
